@@ -486,7 +486,7 @@ func (c *Conn) Read(p []byte) (int, error) {
 			if n < avail {
 				c.nw.fire(FFrag)
 			}
-			zzsim.Event("read pair=%d side=%d n=%d", c.pair, c.side, n)
+			zzsim.EventKey(fmt.Sprintf("read %d %d", c.pair, c.side), "read pair=%d side=%d n=%d", c.pair, c.side, n)
 			if last && c.nw.cfg.EOFData > 0 && zzsim.Chance(c.nw.cfg.EOFData, 100) {
 				c.nw.fire(FEOFData)
 				return n, io.EOF
@@ -601,7 +601,7 @@ func (c *Conn) Write(p []byte) (int, error) {
 		<-ch
 		zzsim.W("net.Write.wake")
 	}
-	zzsim.Event("write pair=%d side=%d n=%d", c.pair, c.side, n)
+	zzsim.EventKey(fmt.Sprintf("write %d %d", c.pair, c.side), "write pair=%d side=%d n=%d", c.pair, c.side, n)
 	if failAfter {
 		c.abort()
 		return n, ErrReset
